@@ -242,6 +242,44 @@ def model_view(drv, pid, outdir, shard_file, local_case, step):
     return out
 
 
+def predicates_without_model(drv, pid, tier, seed, cfg, stage):
+    """The Coq development does not build against these sources, so no case can be evaluated on the model.  The
+    property's own predicates, which the harness evaluates on the real code, need no model: run the generator for them
+    alone and report the cases on which they fail as concrete failing inputs (next to the proof-obligation violation)."""
+    try:
+        if cfg.get('race') or not hasattr(drv, 'build_harness_only'):
+            return
+        ok, info = drv.build_harness_only()
+        if not ok:
+            return
+        outdir = os.path.join(drv.BUILD, pid)
+        shutil.rmtree(outdir, ignore_errors=True)
+        os.makedirs(outdir)
+        count = cfg[tier if tier in ('quick', 'thorough') else 'quick']
+        rc, out = drv.run([drv.HARNESS_BIN, 'gen', pid, '-seed', str(seed), '-tier', tier, '-out', outdir, '-count', str(count)],
+                          env=drv.GOENV, timeout=3000)
+        if rc != 0:
+            return
+        meta = json.load(open(os.path.join(outdir, 'cases.json')))
+        n = 0
+        for pv in ((meta.get('extra') or {}).get('predicate_violations') or []):
+            if not isinstance(pv, dict):
+                continue
+            n += 1
+            if n > 3:
+                continue
+            g = pv['case']
+            violation(drv, pid, dict(property=pid, seed=seed, tier=tier, count=count, case=g, kind='predicate', history=meta['traces'][g],
+                                     property_predicates_violated_on_the_implementation=pv['violated'],
+                                     explanation='the Coq development no longer builds against these sources (stage %s), so the model could not be evaluated; '
+                                                 'the property\'s own predicates, evaluated by the harness on the observed behaviour of the real code, fail on this case: '
+                                                 'it is a concrete failing input' % stage))
+        if n > 3:
+            print('(%d further cases failing the predicates not written out)' % (n - 3))
+    except Exception as e:   # never let this extra step turn a violation into a fault of the machinery
+        print('(the predicates could not be evaluated without the model: %r)' % (e,))
+
+
 def check(drv, pid, tier, seed):
     if pid not in PROPS:
         print('unknown property', pid)
@@ -269,6 +307,7 @@ def check(drv, pid, tier, seed):
             path = violation(drv, pid, dict(property=pid, seed=seed, case='proof', kind='proof-obligation', stage=stage,
                                              theorem_or_correspondence='the Coq development no longer builds against the regenerated Params.v (stage %s)' % stage,
                                              output=tail, **more), 'no-failing-input-found')
+            predicates_without_model(drv, pid, tier, seed, cfg, stage)
             return 1
         print('check: cannot build (%s):\n%s' % (stage, info.get('output', '')[-3000:]))
         return 2
@@ -352,7 +391,9 @@ def check(drv, pid, tier, seed):
                 return True
         return False
 
-    for (g, step, shard, local) in mism:
+    # only the first three cases are written out: those that also fail one of the property's own predicates
+    # (concrete failing inputs) come first
+    for (g, step, shard, local) in sorted(mism, key=lambda m: (m[0] not in pred, m[0])):
         trace = meta['traces'][g]
         if is_known('\n'.join(trace)):
             continue
